@@ -51,11 +51,17 @@ Proof. exact old_values_exact_pf. Qed.
 Theorem changed_is_json_changed : forall m k a, no_int a = true -> changed m k a = jchanged m k a.
 Proof. exact changed_jchanged_pf. Qed.
 
-(* the data handed to delete listeners is the previously stored entry *)
+(* the data handed to delete listeners is the previously stored entry, unmarshalled into the handler's Type
+   (delete_view); that IS the stored entry when the Type is interface-valued or the entry is of the Type.
+   (Into a float64-valued Type encoding/json turns a stored null into 0: Example null_into_float_type.) *)
 Theorem delete_data_exact : forall c s l,
   o_call (fire c s EDelete) = Some l ->
-  l = LDelete (st_val s) /\ o_pub (fire c s EDelete) = Some PDelete.
+  l = LDelete (option_map (delete_view c) (st_val s)) /\ o_pub (fire c s EDelete) = Some PDelete.
 Proof. exact delete_data_exact_pf. Qed.
+Theorem delete_view_typed : forall c r, fits c r = true -> delete_view c r = r.
+Proof. exact delete_view_typed_pf. Qed.
+Theorem delete_view_any : forall c r, c_ty c = TyAny -> delete_view c r = r.
+Proof. exact delete_view_any_pf. Qed.
 
 (* index out of range (or negative), create on an existing resource (stored or Default), change / remove on a
    missing resource without Default: the event method panics, nothing is published, no listener is called,
@@ -65,9 +71,12 @@ Theorem unappliable_silent : forall c s e,
 Proof. exact unappliable_silent_pf. Qed.
 
 (* resbadger.Model with an index set and without Default: the index entries are exactly the keys of the
-   stored value after any event sequence, provided no Key callback returns an empty non-nil slice *)
+   stored value after any event sequence, provided no Key callback returns an empty non-nil slice and the
+   Type is interface-valued or entry and events are of the Type (the Key callbacks see the value as
+   unmarshalled into Type) *)
 Theorem idx_consistent : forall c ks s es,
   c_pkg c = ResB -> c_type c = TModel -> c_idx c = Some ks -> c_def c = None ->
+  c_ty c = TyAny \/ well_typed c s es = true ->
   keys_nonempty ks -> idx_ok ks s -> idx_ok ks (final c s es).
 Proof. exact idx_consistent_pf. Qed.
 
@@ -113,6 +122,31 @@ Example old_values_nonvacuous :
   Some (LChange [(ka, Put (JNum 2)); (kb, Put (JStr [120])); ([99], Put (JNum 3)); ([100], Put (JNum 0))]
                 [(ka, Put (JNum 1)); ([99], Put (JNum 3)); ([100], Del)]).
 Proof. vm_compute. reflexivity. Qed.
+
+(* a property that is present with value null is not an absent property (both packages: `ov, ok := m[k]`):
+   null -> "x" hands the listeners null (not the delete action) as old value; deleting a null-valued
+   property is published and removes it; null -> null is no change (nothing published); absent -> null
+   is a change with the delete action as old value *)
+Example null_is_not_absent :
+  let c := Cfg ResB TModel TyAny None None in
+  let s := St (Some (RModel [(ka, JNull); (kb, JNum 1)])) [] in
+  o_call (fire c s (EChange [(ka, Put (GStr [120]))])) = Some (LChange [(ka, Put (JStr [120]))] [(ka, Put JNull)]) /\
+  fire c s (EChange [(ka, Del)]) =
+    Obs false (Some (PChange [(ka, Del)])) (Some (LChange [(ka, Del)] [(ka, Put JNull)])) (St (Some (RModel [(kb, JNum 1)])) []) /\
+  fire c s (EChange [(ka, Put GNull)]) = silent false s /\
+  o_call (fire cfg_legacy_model s (EChange [([99], Put GNull)])) = Some (LChange [([99], Put JNull)] [([99], Del)]) /\
+  get_resource cfg_legacy_model (final cfg_legacy_model s [EChange [([99], Put GNull)]]) =
+    GOk (RModel [(ka, JNull); (kb, JNum 1); ([99], JNull)]).
+Proof. vm_compute. repeat split. Qed.
+
+(* note on the current code: a null stored under a float64-valued Type (an event value that is not of the
+   Type) is served as null by get but as 0 by Value(), and handed as 0 to delete listeners *)
+Example null_into_float_type :
+  let c := Cfg Legacy TModel TyNum None None in
+  let s := final c empty [ECreate (RModel [(ka, JNum 1)]); EChange [(ka, Put GNull)]] in
+  get_resource c s = GOk (RModel [(ka, JNull)]) /\ value_resource c s = GOk (RModel [(ka, JNum 0)]) /\
+  o_call (fire c s EDelete) = Some (LDelete (Some (RModel [(ka, JNum 0)]))).
+Proof. vm_compute. repeat split. Qed.
 
 (* resbadger applyDelete BEFORE fix ec218ca: an entry that does not decode into Type was deleted although
    the handler returned an error (nothing published) *)
